@@ -19,7 +19,7 @@ RULE = ("fault space = truncation points of the writer: frame sizes 2*nc for nc 
         "distinct = distinct (nc, frames, trailing, claim, fs, reader class)")
 ASSUMPTIONS = ["truncation = a prefix of the byte stream the writer would have produced", "at least one complete frame is present",
                "still-acquiring metadata (no fileTimeSecs / fileSizeBytes yet) is only given to OnlineReader, the class meant for it"]
-REQUIRED = {"constructions": 400, "prefix_values_checked": 400, "half_frame_or_more": 100, "beyond_end_reads": 400, "cbin_short": 2, "deferred_opens": 60, "reopens_after_growth": 100, "metadata_without_size_field": 100, "long_off_by_few": 6, "other_sample_widths": 40}
+REQUIRED = {"constructions": 400, "prefix_values_checked": 400, "half_frame_or_more": 100, "beyond_end_reads": 400, "cbin_short": 2, "deferred_opens": 60, "reopens_after_growth": 100, "metadata_without_size_field": 100, "online_live_sizes": 20, "long_off_by_few": 6, "other_sample_widths": 40}
 CASE_TIMEOUT = 400.0
 NCS = [2, 5, 97, 277, 385]
 FRAMES = [1, 2, 22, 1000]
@@ -182,6 +182,10 @@ def run_case(case):
                 c_trail = 0 if rng.random() < 0.4 else int(rng.integers(0, frame))
                 with open(b, "ab") as fo:           # appended, as a writer does (the bytes already there are never touched)
                     fo.write(by[b.stat().st_size: c_frames * frame + c_trail])
+                if isinstance(sr, spikeglx.OnlineReader):
+                    # an online reader follows the recording while it stays open: its sample count, shape and duration are those of the file NOW
+                    res.check(sr.ns == c_frames and sr.shape == (c_frames, nc) and abs(sr.rl - c_frames / sr.fs) <= 1e-9 * max(1.0, c_frames / sr.fs), "online:live-size",
+                              f"{label}; the file grew to {c_frames} frames+{c_trail}B while the online reader stayed open: ns={sr.ns} shape={sr.shape} rl={sr.rl}", counter="online_live_sizes")
                 how2 = ("open-again", "close-then-open")[(j + step) % 2]
                 label2 = f"{label}; then the file grew to {c_frames} frames+{c_trail}B and the reader was re-opened ({how2})"
                 try:
